@@ -1,6 +1,7 @@
 mod common;
 mod anim;
 mod extreme;
+mod laws;
 mod obj;
 mod tl;
 mod ts;
@@ -52,6 +53,9 @@ fn main() {
             println!("{}", tally.report());
         }
         "drive-extreme" => println!("{}", extreme::drive_extreme(args[2].parse().unwrap(), args[3].parse().unwrap())),
+        "easing-tables" => println!("{}", laws::easing_tables(&args[2])),
+        "drive-easing" => println!("{}", laws::drive_easing(&args[2])),
+        "drive-lerp" => println!("{}", laws::drive_lerp(args[2].parse().unwrap(), args[3] == "full", &args[4])),
         "drive-ts" => {
             // drive-ts <seed> <configs> <out.ndjson>
             let r = ts::drive_ts(args[2].parse().unwrap(), args[3].parse().unwrap(), &args[4]);
